@@ -1,6 +1,6 @@
 """C03 - BIP32 conformance of HD key derivation."""
 CONTRACT_MODULES = ['contracts.keys_hd']
-CONTRACTS = ['bitcoinlib.keys.HDKey.child_private', 'bitcoinlib.keys.HDKey.child_public'] + [
+CONTRACTS = ['bitcoinlib.keys.HDKey.child_private', 'bitcoinlib.keys.HDKey.child_public', 'bitcoinlib.keys.HDKey.public_master[hardened-path-native]'] + [
     'bitcoinlib.keys.HDKey.subkey_for_path[path%d-%s-%s]' % (L, k, '_'.join(m or 'none' for m in ms))
     for L, k, ms in [(1, k, [m]) for m in ['', "'", 'h', 'H', 'p', 'P'] for k in ('priv', 'pub')] +
                     [(2, 'priv', ['', '']), (2, 'priv', ["'", '']), (2, 'priv', ['', 'h'])]] + [
